@@ -230,6 +230,11 @@ func rulesC07(c *Ctx) {
 				}
 			}
 		}
+		// the transport is asked while the session lock is held: the read goroutine is already running, and a
+		// server/discover that arrives meanwhile must wait for the filtered list instead of finding nil (= every SDK version)
+		for _, call := range sc.CallsIn(sc.Body, fsv, false) {
+			c.Check(sc.heldLocal(call)["ServerSession.mu"], "Server.Connect:filter-evaluated-under-session-lock", sc, call, "filterSupportedVersions(t) runs inside the critical section that stores its result")
+		}
 		c.Check(okStore, "Server.Connect:stores-filtered-versions", sc, nil, "supportedVersions = filterSupportedVersions(t) is stored under ss.mu before every successful return")
 		fs := c.Fn(pM, "", "filterSupportedVersions")
 		okF := false
